@@ -1,6 +1,6 @@
 """Matrix-shaped decision rules in robust constraints (ro front end).
 
-  y = ldr((a, b)),  entries adapt to declared components of z in [-1, 1]^nz
+  y = ldr((a, b)),  entries adapt to declared components of z in a box (some bounds exactly zero)
   minmax  sum(W * y)   s.t.   y >= C.z + D  (entry-wise, for all z)   in several array spellings
                                (y.T, rows, columns, negated, difference transposed, ...)
 
@@ -24,7 +24,16 @@ def gen(rng, tier):
         b = a + 1 if a < 3 else a - 1
     nz = int(rng.integers(2, 4))
     mask = np.ones((a, b, nz), int) if rng.random() < 0.4 else (rng.random((a, b, nz)) < 0.6).astype(int)
+    # the box: [-1, 1] per component, or one-sided with a bound that is exactly zero
+    lo, hi = -np.ones(nz), np.ones(nz)
+    for k in range(nz):
+        r = rng.random()
+        if r < 0.25:
+            lo[k] = 0.0
+        elif r < 0.5:
+            hi[k] = 0.0
     return {'kind': 'matrule', 'a': a, 'b': b, 'nz': nz, 'mask': mask.tolist(),
+            'lo': lo.tolist(), 'hi': hi.tolist(), 'set_form': int(rng.integers(3)),
             'C': np.round(rng.uniform(-2, 2, (a, b, nz)), 1).tolist(),
             'D': np.round(rng.uniform(-1, 1, (a, b)), 1).tolist(),
             'W': np.round(rng.uniform(0.5, 2, (a, b)), 1).tolist(),
@@ -37,9 +46,11 @@ def closed_form(spec):
     D = np.array(spec['D'], float)
     W = np.array(spec['W'], float)
     mk = np.array(spec['mask'])
-    const = float((W * (D + (np.abs(Cc) * (1 - mk)).sum(axis=2))).sum())
+    lo, hi = np.array(spec.get('lo', [-1.0] * spec['nz'])), np.array(spec.get('hi', [1.0] * spec['nz']))
+    wc = np.maximum(Cc * lo, Cc * hi)                 # worst case of C_ijk z_k over [lo_k, hi_k]
+    const = float((W * (D + (wc * (1 - mk)).sum(axis=2))).sum())
     g = (W[:, :, None] * Cc * mk).sum(axis=(0, 1))
-    return const + float(np.abs(g).sum())
+    return const + float(np.maximum(g * lo, g * hi).sum())
 
 
 def run(spec, ctx, exact=False):
@@ -74,7 +85,14 @@ def run(spec, ctx, exact=False):
                             y[i, j].adapt(z[k])
         if spec['late_rvar']:
             m.rvar(2)
-        uset = (z >= -1, z <= 1)
+        lo, hi = np.array(spec.get('lo', [-1.0] * nz)), np.array(spec.get('hi', [1.0] * nz))
+        sf = spec.get('set_form', 0)
+        if sf == 0:
+            uset = (z >= lo, z <= hi)
+        elif sf == 1:
+            uset = [z[k] >= float(lo[k]) for k in range(nz)] + [z[k] <= float(hi[k]) for k in range(nz)]
+        else:
+            uset = (-z <= -lo, hi >= z)
         rhs = D
         for k in range(nz):
             rhs = rhs + Cc[:, :, k] * z[k]
@@ -117,7 +135,8 @@ def run(spec, ctx, exact=False):
     tol = 1e-6 * (1 + np.abs(Cc).sum() + np.abs(D).max())
     detail = []
     worst_obj = -np.inf
-    for v in itertools.product([-1.0, 1.0], repeat=nz):
+    lo, hi = np.array(spec.get('lo', [-1.0] * nz)), np.array(spec.get('hi', [1.0] * nz))
+    for v in itertools.product(*zip(lo, hi)):
         zv = np.array(v)
         yv = y0 + Y @ zv
         need = D + Cc @ zv
